@@ -25,8 +25,17 @@
                    same authority followed by ":8042" or by ":" alone (event fields alt, alt0)
      D:encode_exact / D:ce_exact / D:host / D:port   output differs from the modelled one where the
                    property does not pin it down (over-escaping; mixed input; unvalidated IP literal)
+   Long inputs (UriLong): the call is recorded with the input spelled as a dictionary of short chunks and
+   the sequence of dictionary indices, [fn |-> "decode_long", plus, dict, seq, out, err] and
+   [fn |-> "encode_long", f (the encoder's name), dict, seq, out, out2, back, backp, err]; the spec
+   functions are evaluated on the chunks and put together by the laws DecodeChunkLaw / EncodeConcat.
+     H:chunk       a chunk that is followed by another one cuts an escape or a character (harness error)
+     P:decode_split  decode of a long input yields MORE code points than the reference reading (a character
+                   whose escapes the implementation processed in two parts came out as replacement characters)
+     P:decode_long decode of a long input differs from the reference reading otherwise
+     (encode_long uses the clauses of the short encoders: P:alphabet P:roundtrip P:decode_encode the P:ce_ ones, the D: ones)
      H:input       the harness recorded a parse_host call for something that is no authority *)
-EXTENDS UriOps, UriHosts, Json, IOUtils
+EXTENDS UriLong, UriHosts, Json, IOUtils
 
 Traces == JsonDeserialize(IOEnv.TRACE_FILE)
 
@@ -62,6 +71,35 @@ JudgeHost(e) ==
              ELSE IF v /\ ~HasColon(e.s) /\ e.alt0 # e.out THEN "P:host_port"
              ELSE "ok"
 
+(* ---- long inputs, decided from the chunk readings ---- *)
+JudgeDecodeLong(e) ==
+    LET ok == ChunkOKAll(e.dict, e.plus, 1)
+        x  == DecodeLong(e.dict, e.seq, e.plus)
+    IN  IF ~ChunksJoin(ok, e.seq) THEN "H:chunk"
+        ELSE IF e.out = x THEN "ok"
+        ELSE IF Len(e.out) > Len(x) THEN "P:decode_split"
+        ELSE "P:decode_long"
+
+JudgeEncodeLong(e) ==
+    LET allowed == IF e.f \in {"encode", "encode_check_escaped"} THEN UriAllowed ELSE ValueAllowed
+        ce == e.f \in {"encode_check_escaped", "encode_value_check_escaped"}
+        S  == TextOf(e.dict, e.seq)                    \* the input
+        x  == EncodeLong(e.dict, e.seq, allowed)       \* EncodeConcat
+        fe == /\ ChunksJoin(ClosedAll(e.dict, 1), e.seq)                    \* CheckEscapedConcat
+              /\ \A j \in 1..Len(e.seq) : FullyEscaped(e.dict[e.seq[j]], allowed)
+    IN  IF ce THEN
+            (IF ~ChunksJoin(ClosedAll(e.dict, 1), e.seq) THEN "H:chunk"
+             ELSE IF fe /\ e.out # S THEN "P:ce_fixpoint"
+             ELSE IF ~FullyEscaped(e.out, allowed) THEN "P:ce_alphabet"
+             ELSE IF e.out2 # e.out THEN "P:ce_idem"
+             ELSE IF ~fe /\ e.out # x THEN "D:ce_exact"
+             ELSE "ok")
+        ELSE
+            (IF e.out = x THEN (IF e.back # S \/ e.backp # S THEN "P:decode_encode" ELSE "ok")
+             ELSE IF ~StrictEscaped(e.out, allowed) THEN "P:alphabet"
+             ELSE IF Decode(e.out, FALSE) # S THEN "P:roundtrip"       \* (the long output read directly: failing cases only)
+             ELSE "D:encode_exact")
+
 Judge(e) ==
     IF e.err THEN "P:total"
     ELSE CASE e.fn = "decode" -> (IF e.out = Decode(e.s, e.plus) THEN "ok" ELSE "P:decode")
@@ -70,6 +108,8 @@ Judge(e) ==
            [] e.fn = "encode_check_escaped" -> JudgeCE(e, UriAllowed)
            [] e.fn = "encode_value_check_escaped" -> JudgeCE(e, ValueAllowed)
            [] e.fn = "parse_host" -> JudgeHost(e)
+           [] e.fn = "decode_long" -> JudgeDecodeLong(e)
+           [] e.fn = "encode_long" -> JudgeEncodeLong(e)
            [] OTHER -> "H:fn"
 
 Step == /\ l >= 1 /\ l <= Len(T.ev) /\ verdict = "ok"
